@@ -156,3 +156,20 @@ def key_conc(pid, c):
 
 key_conc_atom = key_conc
 key_conc_future = key_conc
+
+
+def key_envconc(pid, c):
+    """C11: simultaneous evaluations on one environment: data race (pair of accesses), blocked, or a program
+    whose result / trace / own definitions differ from its solo run."""
+    why = c.go.split("\t!", 1)[1] if "\t!" in c.go else ""
+    if c.go.startswith("race"):
+        if "env.(*Env)" in why:
+            return "env.data-race"
+        if "Stepper" in why or "lisp.EVAL" in why or "lisp.do" in why:
+            return "eval.global-race"
+        return "envconc.race:" + why[:80]
+    if c.go.startswith("BLOCKED"):
+        return "envconc.blocked"
+    if c.go.startswith("differs") or c.go.startswith("violation"):
+        return "envconc.interference"
+    return None
